@@ -1,7 +1,7 @@
 (** Guard presence: under every feature configuration a guarded statement is present exactly when
     all its if-feature expressions denote true (Feature/Guard.v). *)
 From Coq Require Import List Bool Arith Lia Strings.Byte.
-From YV Require Import Feature.IfFeature Feature.IfFeatureProofs Feature.Guard.
+From YV Require Import Feature.IfFeature Feature.IfFeatureProofs Feature.IfFeatureEnvProofs Feature.Guard.
 Import ListNotations.
 
 Lemma mem_filter (p : name -> bool) l f : mem f (filter p l) = mem f l && p f.
@@ -98,6 +98,45 @@ Section Presence.
   Qed.
 End Presence.
 
+(** ** the syntax check of Builder.IfFeature *)
+
+Definition evaluates (t : text) : Prop := exists b, eval_impl t (env_of []) = ROk b.
+
+Lemma validate_ok : forall ts, Forall evaluates ts -> validate ts = On.
+Proof.
+  induction 1 as [|t ts [b Hb] _ IH]; simpl; [reflexivity|]. rewrite Hb. exact IH.
+Qed.
+
+(** a malformed argument anywhere fails the load, whatever the features *)
+Lemma validate_bad : forall ts t e, In t ts -> eval_impl t e = RErr -> validate ts = Bad.
+Proof.
+  induction ts as [|a ts IH]; intros t e Hin He; [destruct Hin|]. simpl.
+  destruct (eval_impl a (env_of [])) as [b| |] eqn:Ea.
+  - destruct Hin as [->|Hin]; [|exact (IH t e Hin He)].
+    rewrite (eval_err_indep t e (env_of []) He) in Ea. discriminate.
+  - reflexivity.
+  - exfalso. exact (eval_total a (env_of []) Ea).
+Qed.
+
+Lemma guard_evaluates g : guard_ok g = true -> evaluates (guard_text g).
+Proof.
+  intros H. unfold guard_ok in H. apply andb_true_iff in H as [Hs Hi].
+  eexists. unfold guard_text. apply eval_correct; assumption.
+Qed.
+
+Lemma guards_evaluate gs : forallb guard_ok gs = true -> Forall evaluates (map guard_text gs).
+Proof.
+  induction gs as [|g gs IH]; simpl; intros H; [constructor|].
+  apply andb_true_iff in H as [Hg Hgs]. constructor; [apply guard_evaluates; exact Hg|apply IH; exact Hgs].
+Qed.
+
+Lemma stmt_texts_evaluate s : gstmt_ok s = true -> Forall evaluates (stmt_texts (texts_of s)).
+Proof.
+  destruct s as [gs|gs|gs|gs|rs]; simpl; try apply guards_evaluate.
+  induction rs as [|gs rs IH]; simpl; intros H; [constructor|].
+  apply andb_true_iff in H as [Hg Hrs]. apply Forall_app. split; [apply guards_evaluate; exact Hg|apply IH; exact Hrs].
+Qed.
+
 (** GUARD PRESENCE: for every configuration (allow-list, deny-list, all on), every set of declared
     features and every list of guarded statements whose guards are written expressions, the load
     succeeds and each guarded data node / case / uses / augment is present, each refine applied,
@@ -105,17 +144,31 @@ End Presence.
 Theorem guard_presence : forall cfg declared ss, forallb gstmt_ok ss = true ->
   compile cfg declared (map texts_of ss) = Loaded (map (spec_obs cfg declared) ss).
 Proof.
-  intros cfg declared ss H. unfold compile. apply compile_from_spec; [|assumption].
-  intros t b E. discriminate E.
+  intros cfg declared ss H. unfold compile.
+  rewrite validate_ok.
+  - apply compile_from_spec; [|assumption]. intros t b E. discriminate E.
+  - clear cfg declared. induction ss as [|s ss IH]; simpl; [constructor|].
+    simpl in H. apply andb_true_iff in H as [Hs Hss].
+    apply Forall_app. split; [apply stmt_texts_evaluate; exact Hs|apply IH; exact Hss].
 Qed.
 
-(** a malformed expression is only an error when it is reached: after an expression that is off on
-    the same statement it is never evaluated (known finding 2) *)
+(** A MALFORMED EXPRESSION IS AN ERROR: if any if-feature argument of any statement is not an
+    expression (under whatever assignment one tries it), the load fails *)
+Theorem guard_malformed : forall cfg declared ss t e,
+  In t (flat_map stmt_texts ss) -> eval_impl t e = RErr -> compile cfg declared ss = LoadErr.
+Proof.
+  intros cfg declared ss t e Hin He. unfold compile. rewrite (validate_bad _ t e Hin He). reflexivity.
+Qed.
+
+(** before "fix: a malformed if-feature expression is an error wherever it stands" an argument was
+    only looked at when a checkFeature call reached it: after an expression that is off on the same
+    statement it never was (formerly known finding 2) *)
 Definition kf2_texts : list text := [[x7a; x7a]; [x61; x6e; x64; x20; x61; x6e; x64]].   (* "zz"; "and and" *)
 Lemma lazy_malformed :
   eval_impl [x61; x6e; x64; x20; x61; x6e; x64] (env_of []) = RErr /\
-  compile (AllBut []) [[x61]] [SData kf2_texts] = Loaded [[false]].
-Proof. split; vm_compute; reflexivity. Qed.
+  compile_old (AllBut []) [[x61]] [SData kf2_texts] = Loaded [[false]] /\
+  compile (AllBut []) [[x61]] [SData kf2_texts] = LoadErr.
+Proof. repeat split; vm_compute; reflexivity. Qed.
 
 (** non-vacuity *)
 Lemma guard_hyps_met :
